@@ -2,7 +2,10 @@ module verif
 
 go 1.21
 
-require github.com/samaritan-proxy/samaritan v0.0.0
+require (
+	github.com/anishathalye/porcupine v1.3.0
+	github.com/samaritan-proxy/samaritan v0.0.0
+)
 
 require (
 	github.com/envoyproxy/protoc-gen-validate v0.1.0 // indirect
